@@ -364,7 +364,10 @@ def kernel_eval(ctx, name, requires, body_of_shard, ncases, shard=400, open_scop
     failing = []
     with ThreadPoolExecutor(max_workers=16) as ex:
         results = list(ex.map(lambda s: _run_shard(s[2]), shards))
-    for (lo, hi, path), (rc, out, err) in zip(shards, results):
+    for k, ((lo, hi, path), (rc, out, err)) in enumerate(zip(shards, results)):
+        if rc in (124, 137):     # shell time limit hit (a loaded machine): once more, alone, with a longer limit
+            rc, out, err = coqc(path, cwd=path.parent, timeout=3000, out_vo=path.with_suffix('.vo'))
+            results[k] = (rc, out, err)
         if rc != 0:
             raise RuntimeError(f'coqc failed on {path.name}: {(out + err)[-1500:]}')
         parsed = parse_mismatch_output(out)
